@@ -19,9 +19,9 @@ from vlib import core
 
 PID = 'C20'
 META = {
-    'text': 'Coq: pl.schedule._delay modelled branch for branch over civil dates with a proleptic ordinal (validated against datetime.date.toordinal on every run); proved for every clock instant (years 1..9998) and every accepted specification: day-of-week events are computable, land on the requested weekday and time, within (-1 day, 7 days] and no matching moment is skipped; boot events fire exactly once per process; date events designate exactly their date; day-of-month events with dom <= 28 are computable and land on day dom. defer(): a due event (<= 300 s) queues its node with all known targets / the all-targets marker. Refuted with witnesses (recorded findings): dom 29..31 raises for a short next month, dom skips the current month and is never due for dom > 1, a periodic event never fires a second time, one due node can be queued twice. Tied to the real code by exact comparison of _delay over a multi-year sweep and of defer/dispatch/complete scenarios under an injected clock.',
-    'note': 'Trusted: Coq kernel; python datetime as the reference calendar (toordinal, timedelta arithmetic); the clock/callLater/db.targets fakes of drive_delay.py; farm.dispatch represented by its status line; the hand model Delay.v (correspondence each run). No axioms.',
-    'technique': 'Coq proof (all instants) + refutation witnesses + model/implementation correspondence under an injected clock + implementation-only oracle',
+    'text': 'Coq: pl.schedule._delay modelled branch for branch over civil dates with a proleptic ordinal (validated against datetime.date.toordinal on every run); proved for every clock instant (years 1..9998) and every accepted specification: day-of-week events are computable, land on the requested weekday and time, within (-1 day, 7 days] and no matching moment is skipped; boot events fire exactly once per process; date events designate exactly their date; day-of-month events with dom <= 28 are computable and land on day dom. defer(): a due event (<= 300 s) queues its node with all known targets / the all-targets marker. Refuted with witnesses (recorded findings): dom 29..31 raises for a short next month, dom skips the current month and is never due for dom > 1, a periodic event never fires a second time, one due node can be queued twice. Tied to the real code by exact comparison of _delay over a multi-year sweep and of defer/dispatch/complete scenarios under an injected clock. Source tie: _delay and the due test of defer() are regenerated from the python source on every run (delay2coq.py, fail closed, datetime operations mapped explicitly to the model calendar) and proved equal to the model functions for every argument, without guard (C20_delay_is_source, C20_due_is_source, C20_run_period_is_source); the recorded dom findings hold of the generated definition (C20_dom_refuted_on_source).',
+    'note': 'Trusted: Coq kernel; python datetime as the reference calendar (toordinal, timedelta arithmetic); the clock/callLater/db.targets fakes of drive_delay.py; farm.dispatch represented by its status line; the hand model Delay.v (correspondence each run). No axioms. Translator delay2coq.py (python ast -> Gallina; datetime.now/year/month/day/isoweekday/datetime(...)/timedelta(days=)/+/- mapped to Delay.v; the algorithm reference (factory, name) abstracted to an id), validated each run by a sweep of the generated definition against the real _delay and of the due test against the real defer() at 300 s +- 1 us.',
+    'technique': 'Coq proof (all instants) + refutation witnesses + model/implementation correspondence under an injected clock + implementation-only oracle + translation of _delay and the due test from the source with equality proofs',
 }
 
 US = 1000000
@@ -712,7 +712,7 @@ def run(ctx):
         'day, the oracle all), exact comparison in microseconds; non-trivial = instant within 1 '
         'day of a month end, or dom > 28, or weekday == today.  defer/dispatch/'
         'complete: directed scenarios (re-fire, armed timer, paused, dom-31 abort, '
-        'double queue) + seeded random scenarios; thorough adds an hourly sweep '
+        'double queue, the 300 s window to the microsecond) + seeded random scenarios; thorough adds an hourly sweep '
         'of the oracle over 2023-2032')
     ctx.trust(
         'python datetime as reference calendar (date.toordinal, isoweekday, '
